@@ -53,6 +53,11 @@ func runC01(w *World, r *Report) {
 
 	// ---- size, for all kinds that can occur in a message
 	sizeRulesOnly(w, r, func(k *Kind) bool { return true })
+	builtRule(w, r, "size", func(k *Kind) bool { return true })
+	r.Rule("childerr", "the error of every encode call that can fail is read before the child's bytes are used (the size induction's step: a child that produced nothing makes the parent fail)", 60)
+	childErrRule(w, r, "childerr")
+	r.Rule("typednil", "no pointer that may be nil is stored into an interface-typed field (a typed nil passes the encoders' != nil guards)", 1)
+	typedNilRule(w, r, "typednil")
 
 	// ---- kinds with a header must be classified
 	for _, k := range w.KindsL {
